@@ -27,6 +27,9 @@ pub struct Cfg {
     pub reset_max: Option<usize>,
     pub reset_dur_zero: bool,
     pub enable_push: Option<bool>,
+    /// client only: client::Builder::initial_stream_id (to reach the end of the identifier space)
+    #[serde(default)]
+    pub initial_stream_id: Option<u32>,
 }
 
 #[derive(Clone, Debug, Serialize, Deserialize)]
@@ -248,6 +251,7 @@ fn gen_cfg(t: &mut Tape, server: bool) -> Cfg {
         reset_max: if t.chance(1, 4) { Some(*t.pick(&[0usize, 1, 2, 10])) } else { None },
         reset_dur_zero: t.chance(1, 3),
         enable_push: if server { None } else if t.chance(1, 3) { Some(false) } else { None },
+        initial_stream_id: None,
     }
 }
 
@@ -848,6 +852,9 @@ fn client_builder(c: &Cfg, init_max_send: Option<usize>) -> client::Builder {
     }
     if let Some(v) = init_max_send {
         b.initial_max_send_streams(v);
+    }
+    if let Some(v) = c.initial_stream_id {
+        b.verif_initial_stream_id(v);
     }
     b
 }
